@@ -258,3 +258,38 @@ Example C14_gen_witness :
   go_util_Bitmask_Get (mk_go_Bitmask 14 [6; 0]) 16 = Panic /\
   go_seq_MIDsDistribution_IsIntersecting 4 d 1000000 1060000 = Val true.
 Proof. vm_compute. repeat split; reflexivity. Qed.
+
+(* ---- round 2: the loop function HasBitsIn and IsIntersecting *)
+(* util.Bitmask.HasBitsIn as generated (lifted loop Fixpoint, fuel adequate above the number of bytes between
+   the ends) = bm_has_bits_in, the function C14_hasbits_spec is about *)
+Theorem C14_gen_HasBitsIn_refines : forall b l r fuel, 0 <= l -> l <= r -> r < 9223372036854775807 ->
+  r / 8 < Z.of_nat (length (bm_bin b)) -> (Z.to_nat (r / 8 - l / 8) < fuel)%nat ->
+  go_util_Bitmask_HasBitsIn fuel (zbm b) l r = Val (bm_has_bits_in b l r).
+Proof. exact gen_HasBitsIn_refines. Qed.
+Print Assumptions C14_gen_HasBitsIn_refines.
+
+(* thm:C14_hasbits_spec directly over the GENERATED HasBitsIn and Get *)
+Theorem C14_hasbits_spec_gen : forall b l r fuel,
+  bytes_ok (bm_bin b) -> 0 <= l -> l <= r -> r < 9223372036854775807 ->
+  r / 8 < Z.of_nat (length (bm_bin b)) -> (Z.to_nat (r / 8 - l / 8) < fuel)%nat ->
+  (go_util_Bitmask_HasBitsIn fuel (zbm b) l r = Val true <->
+   exists i, l <= i <= r /\ go_util_Bitmask_Get (zbm b) i = Val true).
+Proof. exact hasbits_spec_gen. Qed.
+Print Assumptions C14_hasbits_spec_gen.
+
+(* MIDsDistribution.IsIntersecting as generated = dist_is_intersecting on every well-formed distribution with a
+   bucket above 1 ns, for every query 0 <= from <= to over all uint64 *)
+Theorem C14_gen_IsIntersecting_refines : forall d from to fuel, dist_wf d -> 1 < d_bucket d ->
+  0 <= from -> from <= to -> to < two64 -> (length (bm_bin (d_mask d)) < fuel)%nat ->
+  go_seq_MIDsDistribution_IsIntersecting fuel (zdist d) from to = Val (dist_is_intersecting d from to).
+Proof. exact gen_IsIntersecting_refines. Qed.
+Print Assumptions C14_gen_IsIntersecting_refines.
+
+(* the occupancy-map core of thm:C14_intersect_sound (C14_occupancy_sound) directly over the GENERATED
+   IsIntersecting: no panic, no fuel exhaustion, and a query containing an added MID intersects *)
+Theorem C14_intersect_sound_gen : forall d0 ms m qf qt fuel,
+  dist_wf d0 -> 1 < d_bucket d0 -> In m ms -> 0 <= qf -> qf <= m -> m <= qt -> qt < two64 ->
+  (length (bm_bin (d_mask (fold_left dist_add ms d0))) < fuel)%nat ->
+  go_seq_MIDsDistribution_IsIntersecting fuel (zdist (fold_left dist_add ms d0)) qf qt = Val true.
+Proof. exact intersect_sound_gen. Qed.
+Print Assumptions C14_intersect_sound_gen.
